@@ -113,12 +113,23 @@ theorem serve_ignores_listing_cfg (c : SiteCfg) (d' : DirCfg) (st : StatFn) (sel
 /-- **Hidden but retrievable.**  A regular file whose selector passes the security filter is
     served with its own bytes when requested by exact selector — whether or not a listing shows
     it (dot file, ignore pattern, `Type=X`, `.cap` override all act on listings only).  (With the
-    gophermap handler configured, a file named `*.gophermap` is served as the menu it holds.) -/
+    gophermap handler configured, a file named `*.gophermap` is served as the menu it holds; the
+    directory handler's own cache file is the exception: `cache_file_not_served`.) -/
 theorem hidden_still_retrievable (c : SiteCfg) (st : StatFn) (sel : Str) (d : Bytes)
     (hs : secureB c.forbidden sel = true) (hst : st sel = some (.file d))
     (hu : (c.url && urlSecureB c.urlForbidden sel) = false)
-    (hg : (c.gophermap && endsWithGophermap sel) = false) : serve c st sel = .document d := by
-  by_cases hh : (c.htmlTitles && c.isHtml sel) = true <;> simp [serve, dispatch, hs, hst, hg, hu, hh]
+    (hg : (c.gophermap && endsWithGophermap sel) = false)
+    (hcf : isSuffixB (47 :: c.cachefile) sel = false) : serve c st sel = .document d := by
+  by_cases hh : (c.htmlTitles && c.isHtml sel) = true <;> simp [serve, dispatch, hs, hst, hg, hu, hh, hcf]
+
+/-- the one kind of file kept out of listings that is not retrievable either: the directory
+    handler's own cache file (the server's, not content) -/
+theorem cache_file_not_served (c : SiteCfg) (st : StatFn) (sel : Str) (d : Bytes)
+    (hs : secureB c.forbidden sel = true) (hst : st sel = some (.file d))
+    (hu : (c.url && urlSecureB c.urlForbidden sel) = false)
+    (hg : (c.gophermap && endsWithGophermap sel) = false)
+    (hcf : isSuffixB (47 :: c.cachefile) sel = true) : serve c st sel = .notFound := by
+  simp [serve, dispatch, hs, hst, hg, hu, hcf]
 
 /-- dot files are never listed by the UMN handler; ignored names by neither -/
 theorem umn_hides_dotfiles (c : DirCfg) (hc : c.umn = true) (base : Str) (ch : Child)
